@@ -1,5 +1,7 @@
 """C16 - tree search tries the best-rated fallback candidates, best first.
 
+Part 2 (proofs only so far): the order in which the modelled `Trees::search_best` calls `access`
+(SearchBest.v / SearchBestProofs.v); its correspondence harness is not written yet.
 Part 1: the bounded sorted candidate buffer (`util.rs` `SortedBuffer<N, OrdBy<K, V>>`): theorems about the
 model `sb_add` (Sorted.v / SortedProofs.v) + correspondence of the compiled buffer with the extracted model
 (CORR) and with a sort-based oracle that does not use the model (ORACLE), on all short insertion sequences
@@ -8,17 +10,9 @@ import os
 import re
 import vlib
 
-THEOREMS = ["C16_sorted_topN", "C16_best_first", "C16_first_is_max"]
-SEARCH_THEOREMS = ["C16_search_order", "C16_walk_once", "C16_walk_all"]
-
-
-def _theorems():
-    """The search_best theorems are obligations as soon as Properties/C16.v states them."""
-    try:
-        src = vlib.strip_comments(open(os.path.join(vlib.COQ, "Properties", "C16.v")).read())
-    except OSError:
-        return THEOREMS
-    return THEOREMS + [t for t in SEARCH_THEOREMS if re.search(r"(Theorem|Lemma)\s+%s\b" % t, src)]
+# candidate buffer (part 1) and visiting order of search_best (part 2; model only, no harness yet)
+THEOREMS = ["C16_sorted_topN", "C16_best_first", "C16_first_is_max",
+            "C16_search_order", "C16_search_once", "C16_walk_once", "C16_walk_all"]
 
 
 # ------------------------------------------------------------------ one explicit sequence
@@ -144,7 +138,7 @@ def _suite(ctx, rel, exe, name, desc, bufargs, oracle, corr, transcript=None):
         p = _parse(text)
         if p and (key not in groups or len(p[1]) < len(groups[key][1][1])):
             groups[key] = (text, p)
-    seen = set()
+    seen = ctx.__dict__.setdefault("c16_seen", set())   # one report per minimal sequence, across suites
     for (kind, _), (text, (cap, keys)) in sorted(groups.items()):
         sh = shrink(ctx, rel, exe, kind, cap, keys)
         if sh is None:
@@ -165,8 +159,7 @@ def _suite(ctx, rel, exe, name, desc, bufargs, oracle, corr, transcript=None):
 
 
 def run(ctx):
-    theorems = _theorems()
-    proofs_ok = vlib.coq_prove(ctx, os.path.join(vlib.COQ, "Properties", "C16.v"), theorems)
+    proofs_ok = vlib.coq_prove(ctx, os.path.join(vlib.COQ, "Properties", "C16.v"), THEOREMS)
     oracle, corr = [], []
     exe = vlib.build_driver(ctx, "sorted")
     rel = vlib.build_harness(ctx, ["bufrun"]) if exe else None
@@ -202,7 +195,10 @@ def run(ctx):
         "candidate buffer keeps min(cap, n) elements, sorted, a sub-multiset of the insertions, every dropped "
         "element rated no better than every kept one, and is read best first. The model is tied to the compiled "
         "SortedBuffer<N, OrdBy<u64, u64>> (N = 1..8) by running both on the same insertion sequences; the "
-        "compiled buffer's output is also checked against a sort-based oracle that does not use the model.",
+        "compiled buffer's output is also checked against a sort-based oracle that does not use the model. "
+        "Theorems about the modelled search_best (access order = perfect matches in walk order, then the retained "
+        "candidates best first; no tree visited twice) are proved but not yet tied to the compiled search_best "
+        "by a correspondence run.",
         "sequences: exhaustive over a small key domain (shortest first) + seeded random long ones, value = insertion "
         "index so that equal keys stay distinguishable; non-trivial = the sequence overflows the capacity or is "
         "not strictly ascending (some insertion is not an append); distinct = distinct non-trivial "
